@@ -1,5 +1,42 @@
-(** * SlashP: property C06 — slashing is recognised exactly and shared pro rata.
-    (header comment with the list of main theorems is at the end of development; see below) *)
+(** * SlashP: property C06 -- slashing is recognised exactly and shared pro rata between the two
+    pools; loss on stake slashed while unbonding is spread over the batches released together in
+    proportion to their size, per token type.
+
+    Main theorems (D = 10^18, LIM = 10^18 = envelope E1; A = delegated total, bb/bst = booked pools,
+    T = bb + bst):
+    - [actual_bonded_exact], [actual_bonded_inv]: the hub's view of the chain, [actual_bonded], is the
+      sum of its delegations (when the underlying denom is usei).
+    - [sync_exact]: a successful check with A < T books bb' + bst' = A exactly,
+      bb' = floor(A * floor(bb*D/T) / D), bst' = A - bb'; other state fields untouched.
+    - [sync_prorata]: under E1 (A <= LIM) bb'*T <= A*bb < (bb'+2)*T and A*bst <= bst'*T < A*bst + 2T
+      (each pool within two base units of its exact share), also in quotient form.
+    - [sync_empty_bsei_pool], [sync_empty_stsei_pool]: an empty pool stays empty, the other gets A.
+    - [sync_noop]: T <= A  =>  both pools unchanged.  [sync_no_delegations], [sync_zero_books]:
+      no delegation entry / empty books => state returned unchanged.
+    - [sync_books_min]: with a delegation entry, bb' + bst' = min(T, A).
+    - [sync_never_raises]: the booked total and the bSei pool never rise; under E1 the stSei pool
+      rises by at most 1 unit, and not at all if A*T <= bst*D.
+      [sync_st_pool_rise_witness] / [sync_st_pool_rise_exists]: that one unit does happen.
+    - [slash_lowers_delegated], [slash_then_check]: the environment's slashing event keeps entries and
+      only lowers the delegated total; the following check books min(T, surviving amount).
+    - [slashing_idempotent]: a second check in the same world changes nothing.
+    - [sync_in_bond], [sync_in_unbond], [sync_in_unbond_stsei], [sync_in_convert_stsei_bsei],
+      [sync_in_convert_bsei_stsei], [sync_in_every_pricing_msg]: each pricing handler fails if the
+      check fails, returns what it returns on the synchronised hub, and factors through the check.
+    - [check_slashing_result], [check_slashing_succeeds], [check_slashing_tx], [check_slashing_tx_inv]:
+      CheckSlashing returns exactly the synchronised hub and no messages (handler and transaction level).
+    - [sync_succeeds]: under E1 and the token wiring the check never fails.
+    - [group_charge_exact] (+ [group_charge_zero_total], [group_empty_batch]): in the loss branch a
+      batch expecting u of the group's U coins is charged s = min(u, floor(floor(u*D/U)*L/D) + [L<>0]),
+      new rate floor((u - s)*D/amount).  [group_surplus_exact]: surplus branch.
+    - [group_charge_prorata]: under E1, s <= u, s*U <= u*L + U, u*L < (s+1)*U (within one unit of u*L/U).
+    - [group_refloor], [group_no_loss_rate]: effect of re-flooring the rate; L = 0 never raises it.
+    - [group_split_prorata]: b_actual + st_actual = A exactly, each within one unit of pro rata (E1).
+    - [group_release_spec], [group_release_prorata]: inside [process_withdraw_rate] every batch of the
+      release group gets, per token type, exactly these rates (computed from the group totals and
+      that type's part of the arriving coins); other batches and the pools are untouched.
+    Non-vacuity examples are in section 10/11 (two non-empty pools with a 1 % loss; a group of three
+    batches). *)
 From Krp Require Import Tactics Prelude Fixed FMap Types Env Registry Cw20 Reward Dispatcher Hub Exec
      Inv HubFrame.
 Open Scope N_scope.
@@ -1431,3 +1468,126 @@ Example group_charge_nonvacuous :
   new_withdraw_rate 700 D 1000 0 false = Some D /\
   (0 < 1000 /\ 11 <= 1000 /\ 11 <= LIM) /\ (0 < 1000 + 720 /\ 1700 <= LIM).
 Proof. vm_compute. repeat split; try reflexivity; discriminate. Qed.
+
+(** ** 11. the check after a slashing event *)
+
+(** one statement for both cases: with at least one delegation entry, the booked total after a
+    check is the smaller of the old books and the delegated amount *)
+Theorem sync_books_min w self h s' :
+  query_actual_state w self h = Some s' ->
+  hp_underlying (h_params h) = usei ->
+  all_delegations (w_env w) self <> [] ->
+  hs_bb s' + hs_bst s' = N.min (booked h) (delegated (w_env w) self).
+Proof.
+  intros H Hu Hne.
+  destruct (N.le_gt_cases (booked h) (delegated (w_env w) self)) as [Hge | Hlt].
+  - destruct (sync_noop _ _ _ _ H Hu Hge) as (-> & -> & _). unfold booked in *. lia.
+  - destruct (sync_exact _ _ _ _ H Hu Hne Hlt) as (Hsum & _). cbv zeta in Hsum. lia.
+Qed.
+
+Lemma Slash_slash_amt_le a num den : den <> 0 -> slash_amt a num den <= a.
+Proof.
+  intros Hd. unfold slash_amt. apply N.div_le_upper_bound; [exact Hd|].
+  rewrite (N.mul_comm den a). apply N.mul_le_mono_l. apply N.le_sub_l.
+Qed.
+
+Lemma Slash_get_map_del (f : (addr * val) * N -> N) (l : fmap (addr * val) N) k :
+  get eqbNN (map (fun kv => (fst kv, f kv)) l) k =
+  match get eqbNN l k with Some a => Some (f (k, a)) | None => None end.
+Proof.
+  induction l as [|[k' a] l IH]; cbn [map get fst]; [reflexivity|].
+  destruct (eqbNN k k') eqn:E; [|exact IH].
+  apply eqbNN_eq in E. subst k'. reflexivity.
+Qed.
+
+(** the environment's slashing event keeps every delegation entry and lowers no-one's stake below
+    zero nor above what it was: the delegated total of every delegator can only fall *)
+Theorem slash_lowers_delegated e v num den unb e' x :
+  ev_slash e v num den unb = Some e' ->
+  map fst (all_delegations e' x) = map fst (all_delegations e x) /\
+  delegated e' x <= delegated e x.
+Proof.
+  unfold ev_slash. intros H. check_inv H as Hle. check_inv H as Hden. inversion H; subst e'. clear H.
+  assert (Hd : den <> 0) by lia.
+  set (f := fun kv : (addr * val) * N =>
+              if snd (fst kv) =? v then slash_amt (snd kv) num den else snd kv).
+  unfold delegated, all_delegations, delegation.
+  cbn [set_unb set_del e_del].
+  match goal with
+  | |- context [get eqbNN (map ?g (e_del e))] =>
+      assert (Emap : map g (e_del e) = map (fun kv => (fst kv, f kv)) (e_del e))
+  end.
+  { apply map_ext. intros [[x0 v'] a]. unfold f. cbn [fst snd]. destruct (v' =? v); reflexivity. }
+  rewrite Emap. clear Emap.
+  induction VALS as [|v0 vs IH]; cbn [flat_map]; [split; [reflexivity | lia]|].
+  repeat rewrite map_app. rewrite !sumN_app. destruct IH as [IH1 IH2]. rewrite IH1.
+  rewrite Slash_get_map_del.
+  destruct (get eqbNN (e_del e) (x, v0)) as [a|]; cbn [map fst snd sumN app]; [|split; [reflexivity | lia]].
+  split; [reflexivity|].
+  match goal with |- ?t + 0 + _ <= _ => assert (Q : t <= a); [|set (fa := t) in *] end.
+  { unfold f. cbn [fst snd]. destruct (v0 =? v); [apply Slash_slash_amt_le; exact Hd | lia]. }
+  match type of IH2 with ?s1 <= ?s2 => set (S1 := s1) in *; set (S2 := s2) in * end.
+  clearbody S1 S2 fa. lia.
+Qed.
+
+(** "After validators are slashed, the next check sets the booked stake to exactly the surviving
+    delegated amount": if the books did not exceed the delegations before the slash (invariant C02)
+    and the hub has a delegation entry, the check in the slashed world books
+    min(old books, surviving delegations) -- the surviving amount exactly whenever the slash bit
+    into the booked stake *)
+Theorem slash_then_check w h v num den unb e' s' :
+  ev_slash (w_env w) v num den unb = Some e' ->
+  hp_underlying (h_params h) = usei ->
+  all_delegations (w_env w) A_hub <> [] ->
+  query_actual_state (set_env w e') A_hub h = Some s' ->
+  hs_bb s' + hs_bst s' = N.min (booked h) (delegated e' A_hub) /\
+  delegated e' A_hub <= delegated (w_env w) A_hub /\
+  (delegated e' A_hub < booked h -> hs_bb s' + hs_bst s' = delegated e' A_hub).
+Proof.
+  intros Hsl Hu Hne Hq.
+  destruct (slash_lowers_delegated _ _ _ _ _ _ A_hub Hsl) as [Hk Hl].
+  assert (Hne' : all_delegations (w_env (set_env w e')) A_hub <> []).
+  { cbn [set_env w_env]. intros E. rewrite E in Hk. cbn [map] in Hk.
+    destruct (all_delegations (w_env w) A_hub); [apply Hne; reflexivity | discriminate Hk]. }
+  pose proof (sync_books_min _ _ _ _ Hq Hu Hne') as Hm. cbn [set_env w_env] in Hm.
+  split; [exact Hm|]. split; [exact Hl|]. intros Hlt. lia.
+Qed.
+
+Example slash_then_check_nonvacuous :
+  ev_slash (w_env Slash_ex_w0) 0 1 100 false =
+    Some (Slash_ex_env [(0, 495000000); (1, 500000001)]) /\
+  all_delegations (w_env Slash_ex_w0) A_hub <> [] /\
+  query_actual_state (set_env Slash_ex_w0 (Slash_ex_env [(0, 495000000); (1, 500000001)])) A_hub Slash_ex_h =
+    Some (mkHubState 994999998578571430 995000003333333333 696500000 298500001 0 0 0 0).
+Proof. vm_compute. repeat split; discriminate. Qed.
+
+(** existential form of the witness (no auxiliary definitions in the statement) *)
+Theorem sync_st_pool_rise_exists :
+  exists w self h s',
+    query_actual_state w self h = Some s' /\ hp_underlying (h_params h) = usei /\
+    delegated (w_env w) self <= LIM /\ booked h <= LIM /\
+    delegated (w_env w) self < booked h /\
+    hs_bst (h_state h) < hs_bst s' /\ hs_ser (h_state h) < hs_ser s'.
+Proof.
+  exists (Slash_ex_world 10000000000006 1 10000000000006 1 (Slash_ex_env [(0, 10000000000006)])),
+         A_hub, (Slash_ex_hub 10000000000006 1 [] 0),
+         (mkHubState 999999999999800000 2000000000000000000 10000000000004 2 0 0 0 0).
+  vm_compute. repeat split; discriminate.
+Qed.
+
+(** the short definitions used in the statements, unfolded *)
+Lemma Slash_defs :
+  (forall amount wrate, batch_expected amount wrate = amount * wrate / D) /\
+  (forall u U L, batch_charge u U L = N.min u (L * (u * D / U) / D + (if L =? 0 then 0 else 1))) /\
+  (forall A st bt, split_b A st bt = A * (if 0 <? st + bt then D - st * D / (st + bt) else 0) / D) /\
+  (forall x a, loss_of x a = if a <=? x then (x - a, false) else (a - x, true)) /\
+  (forall m, pricing_msg m = true <->
+     m = HBond \/ m = HBondSt \/ m = HBondRewards \/ m = HCheckSlashing \/
+     (exists u a, m = HReceive u a HkUnbond) \/ (exists u a, m = HReceive u a HkConvert)).
+Proof.
+  repeat split; try reflexivity.
+  - intros Hp. destruct m as [ | | | n | | | e1 e2 e3 e4 e5 e6 | c1 c2 c3 c4 c5 c6 c7 | a | | src l | tok swapc
+                | tok airdropc swapc | limit | user amt hk ]; try discriminate Hp; auto.
+    destruct hk; try discriminate Hp; [right; right; right; right; left | right; right; right; right; right]; eauto.
+  - intros [-> | [-> | [-> | [-> | [(u & a & ->) | (u & a & ->)]]]]]; reflexivity.
+Qed.
